@@ -5,7 +5,7 @@ correspondence half: it corrupts real closed files and checks every reader call.
 import os, sys, importlib
 import vlib, proglib, crashlib
 
-PROP_FILES = ["Properties_C04_alg.v", "Properties_C04_struct.v"]
+PROP_FILES = ["Properties_C04_alg.v", "Properties_C04_struct.v", "Properties_reader.v"]
 
 
 def small_program(rng, tier):
@@ -207,6 +207,11 @@ def run(ctx):
                     nviol += 1
                     ctx.violation("c04_prefix_%d.txt" % nviol, "corruption (%s): %s\n%s returned %d samples that are not the written prefix\n\nscript:\n%s\n" % (label, c, op, ln, script),
                                   "corrupted file (%s %s): %s returned a wrong prefix" % (label, c, op))
+    # byte-level reader model (coq/ReaderModel.v, extracted) vs the implementation: the same reader calls on intact, corrupted, truncated and
+    # CRC-valid crafted files; the model must predict every return code and every returned byte
+    RDM = importlib.import_module("RDM")
+    nviol += RDM.run_rdm(ctx) or 0
+    dist.update({"rdm_" + k: v for k, v in (ctx.extra.get("rdm_distribution") or {}).items()})
     ctx.extra["distribution"] = dist
     ctx.cov["rule"] = ("closed files (two FSR signals of different types with 2 index levels, annotations, UTC, user data; plus one file with 32 KiB DATA chunks and 13/20 KB user data, sampled flips) corrupted by: single-bit flips (quick: 1500 random "
                        "positions per file; thorough: every bit), 2- and 3-bit flips and bursts <= 32 bits inside one protected region (file header, a chunk header, a "
